@@ -53,25 +53,21 @@ def run(ctx, rep):
     ring_call = None
     owner = frag
     for own, node, tmpl, args in token_templates(ctx, frag):
-        if shape.match(tmpl) and "Ring" in tmpl and isinstance(args[0], ast.Call) and len(args[0].args) == 2:
+        if shape.match(tmpl) and "Ring" in tmpl and len(args) == 2:
             ring_call = (node, tmpl, args[0])
             owner = own
     if ring_call is None:
-        raise AnalysisError("ring prefix call with two directed bonds not found")
+        raise AnalysisError("ring token template '[{}Ring{}]' not found in the encoder")
     node, tmpl, pcall = ring_call
-    site = {id(s.node): s for s in ctx.cg.sites(owner)}.get(id(pcall))
-    if site is None or len(site.callees) != 1:
-        raise AnalysisError("ring prefix function not resolved")
-    P = site.callees[0]
-    # ---- prefix printer summary
-    h = IntFacts(ctx)
-    eng = Engine(ctx, h)
-    h.bind(eng)
-    h.sl.field_domain["stereo"] = symlang.stereo_domain(ctx)
-    L0 = Obj(("L",), "selfies.mol_graph.DirectedBond")
-    R0 = Obj(("R",), "selfies.mol_graph.DirectedBond")
-    fr = eng.run_function(P, {P.posparams[0]: L0, P.posparams[1]: R0})
-    lkey, rkey = vkey(L0), vkey(R0)
+    from rules.shared import ring_prefix_paths, resolve_local
+    pcall = resolve_local(owner, pcall)
+    rp = ring_prefix_paths(ctx, owner, node, pcall)
+    P, eng, h, fr = rp["P"], rp["eng"], rp["h"], rp["frame"]
+    lkey, rkey = rp["lkey"], rp["rkey"]
+    class _FR:          # the per-path (state, prefix value) pairs, whatever the form
+        returns = rp["paths"]
+        raises = fr.raises
+    fr = _FR
     marked_paths = 0
     printed = set()
     for st, v in fr.returns:
@@ -99,7 +95,11 @@ def run(ctx, rep):
                     if part[1] != "-":
                         probs.append("literal %r used for an absent mark instead of '-'" % part[1])
                     # '-' must stand for 'this bond has no mark'
-                    nn = st.atoms.get(("isnone", ("attr", own, "stereo", 0)))
+                    nn = None
+                    for k_, v_ in st.atoms.items():
+                        # (the epoch component of the attribute term depends on how many calls preceded the read)
+                        if k_[0] == "isnone" and isinstance(k_[1], tuple) and k_[1][:3] == ("attr", own, "stereo"):
+                            nn = v_ if nn is None or nn == v_ else "mixed"
                     if nn is not True:
                         probs.append("'-' at position %d is not tied to the %s bond having no mark" % (pos, "first" if pos == 0 else "second"))
                 elif part[0] == "sym":
@@ -108,7 +108,7 @@ def run(ctx, rep):
                         probs.append("character %d is not the mark of the %s bond argument" % (pos, "first" if pos == 0 else "second"))
         # S3: order 1
         order_one = False
-        for ep in range(0, 4):
+        for ep in range(0, 16):
             lo = ("attr", lkey, "order", ep)
             if st.entails(eq(Lin.var(lo), 1)):
                 order_one = True
@@ -144,13 +144,20 @@ def run(ctx, rep):
                    how="order 1; first character -> first mark, second -> second mark", key="table/" + k,
                    witness=None if ok else "entry %s decodes to %r, expected (1, L, %r)" % (k, v, want), nontrivial=not ok)
     # ---- encoder call site orientation
-    args = pcall.args
     probs = []
-    a0, a1 = args
-    # a1 is the loop's ring bond b (with b.src > b.dst on this path); a0 = get_dirbond(src=b.dst, dst=b.src)
-    if not isinstance(a1, ast.Name) or not isinstance(a0, ast.Name):
-        probs.append("prefix arguments are not two local bonds")
+    if rp["form"] == "B":
+        # the formatting function fetches the reverse bond itself
+        bname = rp["rname"]
+        if not rp["rev_ok"]:
+            probs.append("first mark is not taken from the reverse of the ring bond (get_dirbond(src=b.dst, dst=b.src))")
     else:
+      args = pcall.args
+      a0, a1 = args
+      # a1 is the loop's ring bond b (with b.src > b.dst on this path); a0 = get_dirbond(src=b.dst, dst=b.src)
+      if not isinstance(a1, ast.Name) or not isinstance(a0, ast.Name):
+        probs.append("prefix arguments are not two local bonds")
+        bname = None
+      else:
         defs = [n for n in own_nodes(owner.node) if isinstance(n, ast.Assign) and isinstance(n.targets[0], ast.Name) and n.targets[0].id == a0.id]
         okdef = False
         for d in defs:
@@ -164,8 +171,9 @@ def run(ctx, rep):
                     okdef = True
         if not okdef:
             probs.append("first prefix argument is not the reverse of the second (get_dirbond(src=b.dst, dst=b.src))")
-        # guard: b.src < b.dst -> skipped (so b.src > b.dst here: the reverse bond starts at the lower index)
         bname = a1.id
+    if bname is not None:
+        # guard: b.src < b.dst -> skipped (so b.src > b.dst here: the reverse bond starts at the lower index)
         if owner is not frag and bname in owner.params:
             # the ring bond is a parameter of a helper: the guard is around the helper's call in the fragment printer
             actual = set()
